@@ -179,8 +179,8 @@ def lit10 : List Event :=
    .state "BBBBBB" .doing (some 1000)]
 def lit11 : List Event :=
   [.newItem false "BBBBBB" "uuid-b" "EEEEEE" .todo "Test the code" "" (some 300),
-   .claim "BBBBBB" "ag-2" (some 1000),
    .state "BBBBBB" .doing (some 1000),
+   .claim "BBBBBB" "ag-2" (some 1000),
    .newItem false "CCCCCC" "uuid-c" "EEEEEE" .todo "Ship it" "" (some 700),
    .state "CCCCCC" .blocked (some 700),
    .newItem true "EEEEEE" "uuid-e" "" .todo "Release 1.0" "" (some 100),
